@@ -11,7 +11,16 @@ use std::collections::BTreeMap;
 use std::io::BufRead;
 
 fn message(announced: &str, block4: &str) -> String {
-    format!("{{1:F01BANKBEBBAXXX0000000000}}{{2:I{}BANKDEFFXXXXN}}{{4:{}-}}", announced, block4)
+    message_dir(announced, block4, "I")
+}
+
+/// the same message under an input or an output application header
+fn message_dir(announced: &str, block4: &str, dir: &str) -> String {
+    if dir == "O" {
+        format!("{{1:F01BANKBEBBAXXX0000000000}}{{2:O{}1158240718BANKBEBBAXXX43210987652407191301N}}{{4:{}-}}", announced, block4)
+    } else {
+        format!("{{1:F01BANKBEBBAXXX0000000000}}{{2:I{}BANKDEFFXXXXN}}{{4:{}-}}", announced, block4)
+    }
 }
 
 fn is_unsupported(err: &str) -> bool {
@@ -145,6 +154,8 @@ pub fn run(args: &[String]) -> i32 {
         let a = format!("{:03}", v["a"].as_u64().unwrap_or(0));
         let r = format!("{:03}", v["r"].as_u64().unwrap_or(0));
         let want = v["out"].as_str().unwrap_or("");
+        let dir = v["dir"].as_str().unwrap_or("I");
+        let message = |a: &str, b4: &str| message_dir(a, b4, dir);
         let a_supported = MESSAGE_TYPES.contains(&a.as_str());
         let aclass = if a_supported { format!("MT{}", a) } else { "unsupported-code".to_string() };
         evaluated += 1;
@@ -161,8 +172,8 @@ pub fn run(args: &[String]) -> i32 {
                         ("parsed", Ok(_)) => {}
                         ("parsed", Err(e)) => push(&mut violations, format!("C12|{}|MT{}|rejected-own-type", ep, r), &text, json!({"err": e})),
                         ("mismatch", Err(e)) if is_mismatch(e) => {}
-                        ("mismatch", Err(e)) => push(&mut violations, format!("C12|{}|announced={}|requested=MT{}|not-a-mismatch-error", ep, aclass, r), &text, json!({"err": e})),
-                        ("mismatch", Ok(_)) => push(&mut violations, format!("C12|{}|announced={}|requested=MT{}|parsed-as-other-type", ep, aclass, r), &text, json!({})),
+                        ("mismatch", Err(e)) => push(&mut violations, format!("C12|{}{}|announced={}|requested=MT{}|not-a-mismatch-error", ep, if dir == "O" { "|output-header" } else { "" }, aclass, r), &text, json!({"err": e})),
+                        ("mismatch", Ok(_)) => push(&mut violations, format!("C12|{}{}|announced={}|requested=MT{}|parsed-as-other-type", ep, if dir == "O" { "|output-header" } else { "" }, aclass, r), &text, json!({})),
                         _ => {}
                     }
                 }
